@@ -84,6 +84,15 @@ def number_pointers(bn):
 
 def data_assign(bv):
     n = norm(bv)
+    # chaiscript::const_var: every overload adds const to the type the Boxed_Value refers to
+    for want in ("Boxed_Value const_var_impl(const T &t) { return Boxed_Value(std::make_shared<typename std::add_const<T>::type>(t)); }",
+                 "Boxed_Value const_var_impl(T *t) { return Boxed_Value(const_cast<typename std::add_const<T>::type *>(t)); }",
+                 "Boxed_Value const_var_impl(const std::shared_ptr<T> &t) { return Boxed_Value(std::const_pointer_cast<typename std::add_const<T>::type>(t)); }",
+                 "Boxed_Value const_var_impl(const std::reference_wrapper<T> &t) { return Boxed_Value(std::cref(t.get())); }"):
+        if want not in n:
+            raise Shape("const_var_impl overload changed: expected %r" % want[:70])
+    if n.count("Boxed_Value const_var_impl(") != 4:
+        raise Shape("const_var_impl: unexpected number of overloads")
     want = ("Data &operator=(const Data &rhs) { m_type_info = rhs.m_type_info; m_obj = rhs.m_obj; m_is_ref = rhs.m_is_ref; m_data_ptr = rhs.m_data_ptr; "
             "m_const_data_ptr = rhs.m_const_data_ptr; m_return_value = rhs.m_return_value; if (rhs.m_attrs) { "
             "m_attrs = std::make_unique<std::map<std::string, std::shared_ptr<Data>>>(*rhs.m_attrs); } return *this; }")
